@@ -35,7 +35,8 @@ REQUIRED = {"table.predicates": 20, "table.partition": 14, "table.inner_outer": 
             "runs.containers_checked": {"quick": 20000, "thorough": 1000000}, "history.latest_run_only": {"quick": 200, "thorough": 8000},
             "history.reset_leaves_nothing": {"quick": 100, "thorough": 4000}}
 REQUIRED_SEEN = {"feature_status": ["passed", "failed", "error", "skipped", "untested", "hook_error"],
-                 "scenario_status": ["passed", "failed", "error", "skipped", "untested", "hook_error"]}
+                 "scenario_status": ["passed", "failed", "error", "skipped", "untested", "hook_error"],
+                 "junit_mode": ["on", "off"], "raising_tag_hook": ["tag_on_one_level", "tag_on_several_levels"]}
 EXHAUSTIVE = True
 EXHAUSTIVE_SCOPE = "all members of Status; all child-status tuples up to the length bound per container kind"
 NSHARDS = {"quick": 16, "thorough": 16}
@@ -257,12 +258,24 @@ def real_runs(mon, lab, rng, n, tier):
     for i in range(n):
         gen = {"outcomes": OUTCOMES + ["abort"], "weights": {"abort": 0.3}} if i % 5 == 0 else {}
         gen["p_stepless"] = 0.0     # childless scenarios are out of scope and would poison their parents
+        if i % 4 == 1:
+            gen["p_tag"] = 0.7          # densely tagged trees: the same tag on a scenario and on its rule / feature
         if i % 3 == 0:
             # header-only Examples sections next to sections with rows (the outline as a whole is not childless)
             gen.update({"p_empty_examples": 0.4, "max_examples": 3, "outline_min_rows": 1, "p_outline": 0.5})
         else:
             gen["p_empty_examples"] = 0.0
+        if i % 3 == 2:
+            # backgrounds that mix steps with and without examples placeholders, above outlines with tagged examples
+            gen.update({"p_bg_param": 0.6, "p_background": 0.8, "p_outline": 0.5})
         case = RB.gen_case(rng, gen=gen, p_stop=0.3, p_dry=0.15, p_user_skip=0.1)
+        if rng.random() < 0.3:
+            # JUnit reporting switched on (the reporter itself is replaced by the checking reporter below): the runner keeps
+            # captured output for every scenario then and takes another path at the end of Scenario.run
+            case["args"] = case["args"] + ["--junit"]
+            mon.seen("junit_mode", "on")
+        else:
+            mon.seen("junit_mode", "off")
         ref = {"case": case}
         rep = CheckingReporter(mon, lab, ref)
         mode = i % 4
@@ -271,7 +284,11 @@ def real_runs(mon, lab, rng, n, tier):
         if mode == 1 and not case["cfg"]["dry_run"]:
             obs0 = lab.run(case["program"], args=case["args"])
             if obs0.hooks:
-                kw["hook_fault"] = {"k": rng.randrange(len(obs0.hooks)), "exc": rng.choice(["Exception", "AssertionError"])}
+                k = rng.randrange(len(obs0.hooks))
+                tag_hooks = [j for j, h in enumerate(obs0.hooks) if h[0].endswith("_tag")]
+                if tag_hooks and rng.random() < 0.4:
+                    k = rng.choice(tag_hooks)       # tag hooks: the same tag may sit on several nesting levels
+                kw["hook_fault"] = {"k": k, "exc": rng.choice(["Exception", "AssertionError"])}
                 case = dict(case, hook_fault=kw["hook_fault"])
                 ref["case"] = case
         elif mode == 2 and not case["cfg"]["dry_run"]:
@@ -322,7 +339,11 @@ def real_runs(mon, lab, rng, n, tier):
         mon.check("runs.reporter_saw_every_feature", rep.seen == [f["name"] for f in case["program"]["features"]],
                   lambda: RB.witness(case, seen=rep.seen))
         before = mon.counters.get("rollup.containers", 0)
-        RB.check_rollup_live(mon, lab, obs, case, cleanup_failed=cleanup_failed)
+        RB.check_rollup_live(mon, lab, obs, case, cleanup_failed=cleanup_failed, hook_failed_names=set(obs.fault_owners))
+        for (kk, hname, ename, tag), owner in zip(obs.faults_fired, obs.fault_owners):
+            if hname.endswith("_tag") and owner is not None:
+                levels = sum(1 for (h2, e2, t2) in obs.hooks if h2 == "before_tag" and t2 == tag)
+                mon.seen("raising_tag_hook", "tag_on_one_level" if levels <= 1 else "tag_on_several_levels")
         RB.check_identity(mon, obs, case, prefix="rollup")
         ncont = len(obs.elem_status)
         mon.count("runs.containers_checked", ncont)
